@@ -234,3 +234,6 @@ func instrPos(in ssa.Instruction) token.Pos {
 
 // syntaxFor returns the *ast.FuncDecl / *ast.FuncLit node of fn.
 func syntaxFor(fn *ssa.Function) ast.Node { return fn.Syntax() }
+
+// shortFn: bare function name (method name without receiver).
+func shortFn(fn *ssa.Function) string { return fn.Name() }
